@@ -142,6 +142,9 @@ func (e *twEngine) wRunTx(tx *twTx, dry bool) twTxRes {
 	for i, m := range tx.msgs {
 		err := e.wDeliver(cctx, m, &res.outOfGas)
 		res.gasAfter = append(res.gasAfter, cctx.GasMeter().GasConsumed())
+		if tx.gas > 0 && (cctx.GasMeter().IsOutOfGas() || cctx.GasMeter().IsPastLimit()) {
+			res.outOfGas = true // (some call sites turn the out-of-gas panic into an error of the message)
+		}
 		if err != nil {
 			res.failedAt, res.err = i, err.Error()
 			break
